@@ -298,9 +298,151 @@ def execute_cancel_released(ex: Execution, backend: str, stack_kind: str = "in_p
         return obs, v
 
 
+def wf_wait_then_unserializable() -> Any:
+    from vmc.events import Ask, Resp
+
+    async def ask(self, ctx, ev, inv):  # noqa: ANN001
+        await ctx.wait_for_event(Resp, waiter_id="w1", waiter_event=Ask(uid=1))
+        await gate("ask")
+        return A(uid=1, payload={1, 2, 3}, blob=b"\xff\xfe")
+
+    async def s2(self, ctx, ev, inv):  # noqa: ANN001
+        return StopEvent(result="ok")
+
+    return make_workflow("WaitUnser", [make_step("ask", [StartEvent], [A], ask), make_step("s2", [A], [StopEvent], s2)])
+
+
+def execute_engine_failure_after_reentry(ex: Execution, backend: str, how: str) -> tuple[Any, list[Any]]:
+    """The engine-side failure of ``engine_failure_unserializable_event`` (the run dies without a terminal event) hits a run
+    that was brought back - reloaded on demand after an idle release (``idle_reload``: a waiting run is answered before or
+    after it was released) or resumed by a restarted server (``restart``) - instead of a freshly started one."""
+    from vmc import idle_harness as ih
+    from vmc.events import Resp
+    from vmc.loop import VLoop
+    from llama_agents.server._store.sqlite.sqlite_workflow_store import SqliteWorkflowStore
+
+    sh.clear_graveyard()
+    sh.reset_ids()
+    ih.reset()
+    path = sh.fresh_sqlite_path() if backend == "sqlite" else None
+    store = sh.make_store(backend, path)
+    v: list[Any] = []
+    runs: list[Any] = []
+
+    def track(wf: Any) -> None:
+        orig_run = wf.run
+
+        def run(*a: Any, **k: Any) -> Any:
+            hd = orig_run(*a, **k)
+            runs.append(hd)
+            return hd
+
+        wf.run = run  # type: ignore[method-assign]
+
+    def judge(loop: Any, st: Any, e: Any, reentered: str) -> None:
+        async def q() -> Any:
+            hs = await st.query(HandlerQuery(handler_id_in=["h1"]))
+            return hs[0] if hs else None
+        t = loop.create_task(q())
+        loop.drain()
+        h = t.result()
+        if not runs:
+            return
+        out = task_outcome(runs[-1]._result_task)
+        w = {"program": "engine_failure_after_reentry", "reentered_by": reentered, "incarnations": min(len(runs), 2)}
+        desc = (f"[{backend}] {how} schedule {ex.labels}: incarnation {len(runs)} of the run ended {out[0]} {out[1]!r}; handler "
+                f"status={getattr(h, 'status', None)} error={getattr(h, 'error', None)!r}")
+        if out[0] == "exception" and not isinstance(out[1], WorkflowCancelledByUser):
+            if getattr(h, "status", None) == "running":
+                v.append(("handler_stays_running_after_run_ended", {**w, "run_ended": "failed"}, desc))
+            elif getattr(h, "status", None) != "failed":
+                v.append(("handler_status_does_not_match_outcome", {**w, "run_ended": "failed", "status": getattr(h, "status", None)}, desc))
+            elif not h.error:
+                v.append(("failed_handler_without_error", w, desc))
+
+    if how == "idle_reload":
+        cfg = RunConfig(max_actions=40, allow_time=True)
+        with EngineExec(ex, cfg) as e:
+            stack = sh.Stack(store, idle_timeout=5.0, wrap_basic=MonRuntime)
+            wf = wf_wait_then_unserializable()(timeout=None)
+            track(wf)
+            stack.add_workflow("wf", wf)
+
+            async def boot() -> None:
+                await stack.service.start()
+                await stack.service.start_workflow(wf, "h1", StartEvent())
+
+            e.loop.create_task(boot())
+            st = {"added": False}
+
+            def on_q(h: Any) -> None:
+                # the client answers once the run waits (before or after the idle release, the explorer decides)
+                if not st["added"] and h.runners and any(ws.collected_waiters for ws in h.runners[-1].state.workers.values()):
+                    st["added"] = True
+                    e.add_script([Action("send Resp", lambda: e.loop.create_task(stack.service.send_event("h1", Resp(uid=1, key="k"))))])
+
+            cfg.on_quiescent.append(on_q)
+            cfg.time_filter = lambda h: bool(e.loop.timer_deadlines()) and e.loop.timer_deadlines()[0] - e.loop.vt < 1000
+            e.drive()
+            judge(e.loop, store, e, "idle_reload" if ih.RELEASES else "none")
+            obs = {"released": bool(ih.RELEASES), "incarnations": len(runs), "_metrics": {"max_concurrency": 1}}
+        return obs, v
+    # ---- restart: the first process stops while s1 is running; the resumed run dies engine-side
+    crash_at = 1 + ex.choose(2, "process_stop", ["after_tick_1", "after_tick_2"])
+    ctl = sh.CrashControl(crash_at)
+    e = EngineExec(ex, RunConfig(max_actions=40, allow_time=False))
+    e.__enter__()
+    crashed = False
+    try:
+        try:
+            ctl.arm(store)
+            stack = sh.Stack(store, idle_timeout=10_000.0, wrap_basic=MonRuntime)
+            wf = wf_unserializable()(timeout=None)
+            stack.add_workflow("wf", wf)
+
+            async def boot1() -> None:
+                await stack.service.start()
+                await stack.service.start_workflow(wf, "h1", StartEvent())
+
+            e.loop.create_task(boot1())
+            e.drive()
+        except sh.Crash:
+            crashed = True
+        vt = e.loop.vt
+    finally:
+        if crashed:
+            sh.bury(e.loop)
+            e.abandon()
+        else:
+            e.__exit__(None, None, None)
+    if not crashed:
+        return {"skipped": True, "_metrics": {"max_concurrency": 1}}, []
+    ctl.disarm(store)
+    store2 = store if backend == "memory" else SqliteWorkflowStore(path, poll_interval=1.0, auto_migrate=False)
+    loop2 = VLoop()
+    loop2.vt = vt
+    cfg2 = RunConfig(max_actions=40, allow_time=True)
+    with EngineExec(ex, cfg2, loop=loop2) as e2:
+        stack2 = sh.Stack(store2, idle_timeout=10_000.0, wrap_basic=MonRuntime)
+        wf2 = wf_unserializable()(timeout=None)
+        track(wf2)
+        stack2.add_workflow("wf", wf2)
+        e2.loop.create_task(stack2.service.start())
+        cfg2.time_filter = lambda h: bool(e2.loop.timer_deadlines()) and e2.loop.timer_deadlines()[0] - e2.loop.vt < 1000
+        e2.drive()
+        judge(loop2, store2, e2, "restart")
+        obs = {"incarnations": len(runs), "_metrics": {"max_concurrency": 2}}
+    return obs, v
+
+
 def programs(tier: str) -> list[Program]:
     ps: list[Program] = []
     q = tier == "quick"
+    for backend in ("memory", "sqlite"):
+        for how in ("idle_reload", "restart"):
+            ps.append(Program(f"engine_failure_after_reentry/{how}/{backend}", {"program": "engine_failure_after_reentry", "how": how, "backend": backend},
+                              (lambda ex, backend=backend, how=how: execute_engine_failure_after_reentry(ex, backend, how)),
+                              max_dev=(4 if q else None)))
     for pname in PROGRAMS:
         for backend in ("memory", "sqlite"):
             for mf in (0, 1, 2):
@@ -331,7 +473,9 @@ RULE = ("9 outcome programs (success, two workers racing to stop, step failure w
         "server stack over MemoryWorkflowStore and SqliteWorkflowStore x 0-2 transient failures of handler-status writes at "
         "explorer-chosen attempts (inside the [0.5, 3] s backoff budget) x all schedules within the deviation bound incl. timer "
         "firings; every status written is logged (terminal never followed by running) and the final handler record is compared with "
-        "how the run task actually ended; non-trivial = at least one deviation or injected fault")
+        "how the run task actually ended; plus a waiting run cancelled before / after its idle release (in-process and DBOS halves), and an "
+        "engine-side failure (unserializable step output: the run dies without a terminal event) of a fresh run, of a run reloaded "
+        "after an idle release and of a run resumed by a restarted server; non-trivial = at least one deviation or injected fault")
 
 
 def run(tier: str, seed: int) -> Any:
